@@ -22,9 +22,12 @@ ASSUMPTIONS = ["premise pc_size_agrees (naga TypeInner::size = Layouter size) ev
 PC_TYPES = [("f32", 4), ("u32", 4), ("vec2<f32>", 8), ("vec3<f32>", 12), ("vec4<f32>", 16), ("mat2x2<f32>", 16),
             ("mat3x3<f32>", 48), ("mat4x4<f32>", 64), ("US", 32), ("PS", 16), ("array<vec4<f32>, 3>", 48),
             ("array<f32, 5>", 20), ("PS2", 48), ("array<vec3<f32>, 4>", 64), ("array<array<vec3<u32>, 2>, 2>", 64),
-            ("array<mat3x3<f32>, 2>", 96), ("array<PS, 2>", 32), ("mat2x3<f32>", 32), ("mat4x3<f32>", 64), ("PS3", 80)]
+            ("array<mat3x3<f32>, 2>", 96), ("array<PS, 2>", 32), ("mat2x3<f32>", 32), ("mat4x3<f32>", 64), ("PS3", 80),
+            ("PT", 32), ("PT2", 16), ("PT3", 80)]
 EXTRA = ("struct PS { a: vec3<f32>, b: f32 }\nstruct PS2 { a: f32, b: vec3<f32>, c: array<vec2<f32>, 2> }\n"
-         "struct PS3 { a: array<vec3<f32>, 4>, b: f32 }\n")
+         "struct PS3 { a: array<vec3<f32>, 4>, b: f32 }\n"
+         # padding AFTER the last member: the range covers the whole struct
+         "struct PT { tint: vec4<f32>, scale: f32 }\nstruct PT2 { direction: vec3<f32> }\nstruct PT3 { transform: mat4x4<f32>, flags: u32 }\n")
 
 
 def cases(rng, tier):
@@ -45,6 +48,10 @@ def cases(rng, tier):
             st = used if used else {st for _, st, _ in p.entries}
             truth = (size, sorted(st))
         out.append({"wgsl": EXTRA + p.render(), "family": "pc" if has_pc else "no_pc", "opts": {}, "truth": truth})
+    # a module without any entry point (an include-style file): the range is still there, for no stage
+    for ty, size in rng.sample(PC_TYPES, 6):
+        out.append({"wgsl": EXTRA + "var<push_constant> pc: %s;\nfn helper() -> f32 { return 1.0; }\n" % ty,
+                    "family": "pc_no_entry_points", "opts": {}, "truth": (size, [])})
     return out
 
 
